@@ -37,6 +37,18 @@ class Runner:
         self.version = version
         self.ents: dict[int, object] = {}  # handle -> python entity (every entity the history created)
         self.order: list[int] = []
+        self.subs: dict[int, list] = {}    # handle of a linked parent -> its sub-entity objects as last seen alive
+
+    def tables_line(self) -> str:
+        out = []
+        for t, tab in sorted(self.tabs().items()):
+            for e in tab:
+                out.append((t, e.dxf.name.lower()))
+        return " ".join(f"{t}:{enc(n)}" for t, n in sorted(out))
+
+    def tabs(self):
+        d = self.doc
+        return {1: d.linetypes, 2: d.styles, 3: d.dimstyles, 4: d.appids, 5: d.ucs, 6: d.views}
 
     def init_line(self) -> str:
         doc = self.doc
@@ -44,7 +56,7 @@ class Runner:
         bs = " ".join(f"{enc(doc.blocks.key(br.dxf.name))}:{enc(br.dxf.name)}:{hx(br.dxf.handle)}" for br in doc.block_records)
         ls = " ".join(f"{enc(l.name)}:{hx(l.block_record_handle)}:{l.dxf.taborder}" for l in doc.layouts)
         ly = " ".join(enc(l.dxf.name.lower()) for l in doc.layers)
-        return f"init|{self.seed()}|{ks}|{bs}|{ls}|{ly}"
+        return f"init|{self.seed()}|{ks}|{bs}|{ls}|{ly}|{self.tables_line()}"
 
     # ---- helpers
     def seed(self) -> int:
@@ -88,7 +100,8 @@ class Runner:
                 h = hx(e.dxf.handle)
                 self.ents[h] = e
                 self.order.append(h)
-                req = f"ins|{k}|{enc(name)}|{h}"
+                # an INSERT always owns a SEQEND (`LinkedEntities.post_bind_hook`): a linked parent without attribs
+                req = f"addl|{k}|{enc(name)}|{h}|{self.sub_handles(e)}"
             elif kind == "unlink":
                 req = f"unlink|{op[1]}|{op[2]}"
                 self.layout_of(op[1]).unlink_entity(self.ents[op[2]])
@@ -110,7 +123,71 @@ class Runner:
                 h = hx(e.dxf.handle)
                 self.ents[h] = e
                 self.order.append(h)
-                req = f"copy|{op[1]}|{op[2]}|{h}"
+                req = f"copy|{op[1]}|{op[2]}|{h}|{self.sub_handles(e)}"
+            elif kind == "addl":
+                # a linked parent: POLYLINE + VERTEX... + SEQEND, or INSERT + ATTRIB... + SEQEND
+                k, name = op[1], op[2]
+                lay = self.layout_of(k)
+                if name is None:
+                    e = lay.add_polyline2d([(0, 0), (1, 0), (1, 1)][: op[3]])
+                else:
+                    e = lay.add_blockref(name, (1, 1))
+                    for i in range(op[3]):
+                        e.add_attrib("TAG%d" % i, "v", (0, i))
+                h = hx(e.dxf.handle)
+                self.ents[h] = e
+                self.order.append(h)
+                req = f"addl|{k}|{'-' if name is None else enc(name)}|{h}|{self.sub_handles(e)}"
+            elif kind == "explode":
+                e = self.ents[op[1]]
+                req0 = f"explode|{op[1]}|"
+                nattr = len(e.attribs) if e.is_alive and e.dxftype() == "INSERT" else 0
+                try:
+                    new = list(e.explode())
+                except Exception:
+                    req = req0
+                    raise
+                for x in new:
+                    h = hx(x.dxf.handle)
+                    self.ents[h] = x
+                    self.order.append(h)
+                # the TEXT entities replacing the attached ATTRIBs come last and take the handles of the ATTRIBs:
+                # the model derives them, only the copies of the block content carry new handles
+                copies = new[: len(new) - nattr]
+                req = req0 + " ".join(f"{hx(x.dxf.handle)}/{self.sub_handles(x)}" for x in copies)
+            elif kind == "auditstep":
+                req = "auditstep"
+                doc.audit()
+            elif kind == "addentry":
+                t, name = op[1], op[2]
+                req = f"addentry|{t}|{enc(name)}"
+                tab = self.tabs()[t]
+                if t == 1:
+                    tab.add(name, pattern=[0.2, 0.1, -0.1])
+                elif t == 2:
+                    tab.add(name, font="arial.ttf")
+                else:
+                    tab.add(name)
+            elif kind == "delentry":
+                req = f"delentry|{op[1]}|{enc(op[2])}"
+                self.tabs()[op[1]].remove(op[2])
+            elif kind == "dupentry":
+                req = f"dupentry|{op[1]}|{enc(op[2])}|{enc(op[3])}"
+                self.tabs()[op[1]].duplicate_entry(op[2], op[3])
+            elif kind == "newgroup":
+                req0 = f"newgroup|{enc(op[1])}"
+                try:
+                    g = doc.groups.new(op[1])
+                except Exception:
+                    req = req0 + "|0"
+                    raise
+                req = req0 + f"|{hx(g.dxf.handle)}"
+            elif kind == "setgroup":
+                req = f"setgroup|{enc(op[1])}|{','.join(str(h) for h in op[2])}"
+                doc.groups.get(op[1]).set_data([self.ents[h] for h in op[2]])
+            elif kind == "delgroup":
+                req = f"delgroup|{enc(op[1])}"
+                doc.groups.delete(op[1])
             elif kind == "purge":
                 req = "purge"
                 doc.entitydb.purge()
@@ -167,6 +244,7 @@ class Runner:
                     else:
                         new[h] = _Dead()
                 self.ents = new
+                self.subs = {}
             elif kind == "foreign":
                 req = f"foreign|{op[1]}|{op[2]}"
                 e = self.ents[op[2]]
@@ -200,6 +278,17 @@ class Runner:
             out = "err:" + ERR.get(name, "other")
         assert req is not None, op
         return req + f"|{self.seed()}", out
+
+    def sub_entities(self, e):
+        if e.is_alive and hasattr(e, "all_sub_entities"):
+            if e.dxftype() == "INSERT" and not len(e.attribs):
+                # the SEQEND of an INSERT without ATTRIBs is never written (a new one is created on loading)
+                return []
+            return [x for x in e.all_sub_entities() if x is not None]
+        return []
+
+    def sub_handles(self, e) -> str:
+        return ",".join(str(hx(x.dxf.handle)) for x in self.sub_entities(e))
 
     # ---- operations outside the Lean model (C04/C06 oracle histories only)
     def track(self, e):
@@ -363,8 +452,13 @@ class Runner:
         for h in self.order:
             e = self.ents[h]
             if not e.is_alive:
-                es.append(f"{h}:dead")
+                # the sub-entities of a destroyed parent must be destroyed as well
+                stale = [x for x in self.subs.get(h, []) if x.is_alive]
+                es.append(f"{h}:dead" + ("".join(":LIVE-SUB-%s" % x.dxf.handle for x in stale)))
                 continue
+            subs = self.sub_entities(e)
+            if subs:
+                self.subs[h] = subs
             owner = e.dxf.owner
             indb = doc.entitydb.get("%X" % h) is e
             lay = None
@@ -374,13 +468,24 @@ class Runner:
                 lay = "EXC" + type(ex).__name__
             # a dangling owner makes get_layout() raise KeyError instead of returning None: shown as "?"
             layk = "-" if lay is None else ("?" if isinstance(lay, str) else str(hx(lay.block_record_handle)))
-            es.append(f"{h}:{'-' if owner is None else hx(owner)}:{int(indb)}:{layk}:{int(e.dxf.get('paperspace', 0))}")
+            sb = "/".join(
+                f"{hx(x.dxf.handle)},{'-' if x.dxf.owner is None else hx(x.dxf.owner)},"
+                f"{int(doc.entitydb.get(x.dxf.handle) is x)},{int(x.dxf.get('paperspace', 0))}" for x in subs)
+            es.append(f"{h}:{'-' if owner is None else hx(owner)}:{int(indb)}:{layk}:{int(e.dxf.get('paperspace', 0))}:{sb}")
         bl = sorted((doc.blocks.key(b.name), hx(b.block_record_handle)) for b in doc.blocks)
         bs = " ".join(f"{enc(n)}:{k}" for n, k in bl)
-        ls = " ".join(f"{enc(n)}:{hx(doc.layouts.get(n).block_record_handle)}" for n in doc.layouts.names_in_taborder())
-        act = hx(doc.layouts.get_active_layout_key())
+        try:
+            ls = " ".join(f"{enc(n)}:{hx(doc.layouts.get(n).block_record_handle)}" for n in doc.layouts.names_in_taborder())
+        except Exception as ex:  # noqa
+            ls = "EXC" + type(ex).__name__
+        try:
+            act = hx(doc.layouts.get_active_layout_key())
+        except Exception as ex:  # noqa  (no active paperspace layout: a broken document, shown as such)
+            act = "EXC" + type(ex).__name__
         ly = " ".join(enc(n) for n in sorted(l.dxf.name.lower() for l in doc.layers))
-        return f"{cs};{' '.join(es)};{bs};{ls};{act};{ly}"
+        gs = " ".join(f"{enc(n)}:{hx(g.dxf.handle)}:{','.join(str(hx(x.dxf.handle)) for x in g)}"
+                      for n, g in sorted(doc.groups, key=lambda p: [ord(c) for c in p[0]]))
+        return f"{cs};{' '.join(es)};{bs};{ls};{act};{ly};{self.tables_line()};{gs}"
 
 
 RICH_OPS = {"addattr", "groupedit", "delattribs", "addattrib", "customprop", "addpoly", "addpoly3d", "addmisc", "insattr", "group", "xdict", "xdata", "reactor", "explode",
@@ -405,11 +510,13 @@ def gen_rich(rng):
                 return ("purge",)          # removing layers in use / layer 0 is not safe use
             if op[0] == "renblock":
                 return ("purge",)          # low-level tool: does not rename block references
-            if op[0] == "ins":
+            if op[0] == "ins" or (op[0] == "addl" and op[2] is not None):
                 blocks = [b.name for b in r.doc.blocks if not b.name.startswith("*")]
                 if not blocks:
                     return ("newblock", op[2])
                 # block references only in layouts: a block that (transitively) contains itself is invalid DXF
+                if op[0] == "addl":
+                    return ("addl", rng.choice(layout_keys(r)), rng.choice(blocks), op[3])
                 return ("ins", rng.choice(layout_keys(r)), rng.choice(blocks))
             if op[0] in ("move", "addex", "copy"):
                 e = r.ents[op[2] if op[0] != "copy" else op[1]]
@@ -481,6 +588,9 @@ def enc(s: str) -> str:
 BLOCKS = ["B1", "b1", "B2", "Blk3"]
 LAYOUTS = ["L1", "l1", "Second", "Model", "Layout1"]
 LAYERS = ["LA", "la", "LB", "0"]
+USER_ENTRIES = ["E1", "e1", "E2"]
+ENTRIES = USER_ENTRIES + ["Standard", "ACAD", "Continuous", "BYLAYER"]
+GROUPS = ["G1", "g1", "G2"]
 
 
 class Book:
@@ -499,6 +609,60 @@ class Book:
 def gen_history(rng, length, misuse=False, with_reload=True):
     """yields ops lazily: needs the runner state, so it is a coroutine-like function"""
 
+    def choose_new(r: Runner, ks, hs, live, linked):
+        """operations added in session 3: linked parents, explode, audit, table entries, groups"""
+        y = rng.random()
+        existing = [b.name for b in r.doc.blocks if not b.name.startswith("*")]
+        if y < 0.14:
+            return ("addl", rng.choice(ks), None, rng.choice([2, 3]))
+        if y < 0.28:
+            name = rng.choice(existing) if existing and rng.random() < 0.8 else rng.choice(BLOCKS)
+            return ("addl", rng.choice(ks), rng.choice([name, name.upper(), name.lower()]), rng.choice([0, 1, 2]))
+        if y < 0.42:
+            def selfref(e):
+                # an INSERT inside the block it references is a cyclic definition (invalid DXF): explode() iterates
+                # the block while it appends the copies to it and never returns
+                b = r.doc.blocks.get(e.dxf.name)
+                return b is not None and e.dxf.owner is not None and b.block_record_handle == e.dxf.owner
+
+            inserts = [h for h in hs if r.ents[h].is_alive and r.ents[h].dxftype() == "INSERT" and not selfref(r.ents[h])]
+            dead = [h for h in hs if not r.ents[h].is_alive]
+            defined = [h for h in inserts if r.doc.blocks.get(r.ents[h].dxf.name) is not None]
+            if defined and rng.random() < 0.8:
+                return ("explode", rng.choice(defined))
+            if inserts:
+                return ("explode", rng.choice(inserts))
+            return None
+        if y < 0.47:
+            return ("auditstep",)
+        if y < 0.60:
+            return ("addentry", rng.randint(1, 6), rng.choice(ENTRIES))
+        if y < 0.66:
+            t = rng.randint(1, 6)
+            have = [e.dxf.name for e in r.tabs()[t] if misuse or e.dxf.name.upper() in ("E1", "E2")]
+            name = rng.choice(have) if have and rng.random() < 0.7 else rng.choice(ENTRIES if misuse else USER_ENTRIES)
+            return ("delentry", t, rng.choice([name, name.upper(), name.lower()]))
+        if y < 0.70:
+            t = rng.choice([1, 2, 3, 4, 5, 6])
+            have = [e.dxf.name for e in r.tabs()[t]]
+            src = rng.choice(have) if have and rng.random() < 0.8 else rng.choice(ENTRIES)
+            return ("dupentry", t, rng.choice([src, src.upper(), src.lower()]), rng.choice(USER_ENTRIES))
+        if y < 0.78:
+            return ("newgroup", rng.choice(GROUPS))
+        if y < 0.92:
+            names = [n for n, _ in r.doc.groups]
+            if not names or not live:
+                return None
+            pool = linked if (linked and rng.random() < 0.85) else live
+            first = rng.choice(pool)
+            same = [h for h in pool if r.ents[h].dxf.owner == r.ents[first].dxf.owner]
+            ms = rng.sample(same, min(len(same), rng.randint(1, 3))) if rng.random() < 0.85 else \
+                rng.sample(pool, min(len(pool), rng.randint(1, 3)))
+            return ("setgroup", rng.choice(names), ms)
+        names = [n for n, _ in r.doc.groups]
+        name = rng.choice(names) if names and rng.random() < 0.6 else rng.choice(GROUPS)
+        return ("delgroup", rng.choice([name, name.upper(), name.lower()]))
+
     def choose(r: Runner):
         ks = sorted(r.containers().keys())
         hs = list(r.order)
@@ -510,6 +674,10 @@ def gen_history(rng, length, misuse=False, with_reload=True):
         def owner_of(h):
             return hx(r.ents[h].dxf.owner)
 
+        if hs and rng.random() < 0.30:
+            op = choose_new(r, ks, hs, live, linked)
+            if op is not None:
+                return op
         if x < 0.20 or not hs:
             return ("add", rng.choice(ks))
         if x < 0.22 and linked:
